@@ -27,12 +27,13 @@ func init() {
 			"L-locked": "every static call site (and heap.* call for heap callbacks) of a lock-requiring function holds the named lock in the mode the callee needs, or the receiver is fresh",
 			"L-unsync": "every struct field holding a pointer to a lock-configurable object (own mutex skipped under a construction-only bool flag; configuration derived from the reaching constructors' bodies): one obligation per field (self-locking in every construction, or all sites locked by one common owner mutex) and, when some stored object does not lock itself, one per call site on the field: mutating calls (by body) hold a mutex of the owner exclusively — RLock is not enough — reading calls hold it in any mode",
 			"L-rlock":  "every function × field of an RWMutex-carrying module struct (non-table fields) or package-level variable next to a package-level RWMutex, with accesses that run under only the read side of that RWMutex and no exclusive lock: none of them is a definite write (store, map update/delete, in-place write, callee/method whose body writes through the field or the object it points to)",
+			"L-pending": "C05's I-recent reported for C14: noteBlobIndexedLocked records every indexed blob in recentDone and queues every released dependant, MarkDone re-notes recently done dependencies before clearing recentDone, getNewPendingBlobIndex registers what it returns - the coordination that makes concurrent receives of a blob and its dependency converge to a sequentially explainable state",
 			"L-corpus": "every call / go / defer / interface invoke / function-value site, in non-contract code, of a corpus-touching contract function (*Corpus and *LocationHelper methods, index.Interface methods of *Index, search.Handler *Locked methods): the index lock is held at the site or the enclosing function is only ever entered with it held (all entry sites in the module, greatest fixpoint)",
 		},
 		Run:       runC14,
 		DesignRef: "DESIGN.md §4 C14",
 		Technique: "static analysis: must-hold lockset dataflow over go/ssa with inter-procedural entry locksets (meet over static callers, entry-site fixpoint for the index lock), type-resolved guard table, freshness (escape) exemption, body-derived receiver-access summaries (transitive writes through a parameter outside the callee's own exclusive lock, on a CFG pruned by construction-time configuration flags and constant bool arguments), constructor-reaching configuration of lock-configurable objects",
-		LevelText: "Decides lock discipline only: listed guarded fields are accessed, lock-requiring functions are called, and corpus-reading methods are reached only with the owning mutex held on every CFG path; objects configured not to lock themselves are mutated only under an exclusive lock of their owner; nothing is definitely written while only the read side of its struct's (or package's) RWMutex is held. Does not decide races on other state, unclassified (dynamic / atomics-based) callees, atomicity, lost updates or linearizability.",
+		LevelText: "Decides lock discipline only: listed guarded fields are accessed, lock-requiring functions are called, and corpus-reading methods are reached only with the owning mutex held on every CFG path; objects configured not to lock themselves are mutated only under an exclusive lock of their owner; nothing is definitely written while only the read side of its struct's (or package's) RWMutex is held; the index's pending-blob bookkeeping (recentDone/readyReindex) releases a dependant whose dependency was indexed concurrently. Does not decide races on other state, unclassified (dynamic / atomics-based) callees, atomicity, lost updates or linearizability.",
 	})
 }
 
@@ -864,7 +865,28 @@ func runC14(p *Program, r *Reporter) {
 	c14RuleRLock(p, r, cx, rlAccs)
 	t2 := time.Now()
 	c14RuleCorpus(p, r, cx)
+	c14RulePendingShared(p, r)
 	r.Note("rule time after loading: L-guard+L-locked %.2fs, L-unsync+L-rlock %.2fs, L-corpus %.2fs", t1.Sub(t0).Seconds(), t2.Sub(t1).Seconds(), time.Since(t2).Seconds())
+}
+
+// c14RulePendingShared is C05's I-recent reported under C14 as L-pending (like
+// E-close/G-enum): the recentDone / readyReindex / pending-map discipline is
+// the mechanism that makes CONCURRENT receives of a blob and of its
+// dependency end in the state some sequential order would give - a receive
+// that looked its dependency up just before another client's receive indexed
+// it is released by recentDone at MarkDone. Without it all three receives are
+// acknowledged but the dependant stays unindexed, which no sequential order
+// of the same calls produces.
+func c14RulePendingShared(p *Program, r *Reporter) {
+	sub := NewReporter("C05", p)
+	c05RuleRecent(p, sub)
+	for _, o := range sub.Obls {
+		if o.Rule != "I-recent" {
+			continue
+		}
+		r.add("L-pending", o.Construct, o.Site, o.Status, o.Nontrivial, o.Detail)
+	}
+	r.Floor("L-pending", sub.floors["I-recent"])
 }
 
 type c14Access struct {
